@@ -99,14 +99,18 @@ static void *t_readers(void *arg)
 	return NULL;
 }
 
+static struct json_object *seedobj[MAXT];
+static unsigned long hashes_second[MAXT];
 static void *t_seed(void *arg)
 {
-	int me = (int)(intptr_t)arg; struct json_object *o;
+	int me = (int)(intptr_t)arg; struct json_object *o = json_object_new_object(); /* creating an object does not hash anything yet */
+	seedobj[me] = o;
 	pthread_barrier_wait(&bar);
-	o = json_object_new_object();           /* first use of the key hash in this process ... */
-	json_object_object_add(o, "first", NULL);
-	hashes[me] = lh_get_hash(json_object_get_object(o), "the fixed key");
-	json_object_put(o);
+	/* the FIRST use of the key hash in this thread (and, for one of them, in the process): either a direct hash of the
+	 * fixed key, or an insertion whose slot is derived from it */
+	if (me & 1) { json_object_object_add(o, "the fixed key", json_object_new_int(me)); hashes[me] = lh_get_hash(json_object_get_object(o), "the fixed key"); }
+	else { hashes[me] = lh_get_hash(json_object_get_object(o), "the fixed key"); json_object_object_add(o, "the fixed key", json_object_new_int(me)); }
+	hashes_second[me] = lh_get_hash(json_object_get_object(o), "the fixed key");
 	return NULL;
 }
 
@@ -160,10 +164,18 @@ int main(int argc, char **argv)
 		int r = json_object_put(shared[0]);
 		printf("RESULT scenario=readers threads=%d iters=%d read_mismatches=%d worker_freed=%d final_put=%d callbacks=%d\n", NT, ITERS, __atomic_load_n(&premature, __ATOMIC_RELAXED), __atomic_load_n(&freed_reports, __ATOMIC_RELAXED), r, __atomic_load_n(&cb_count[0], __ATOMIC_RELAXED));
 	} else {
-		struct json_object *o = json_object_new_object(); int distinct = 1;
+		struct json_object *o = json_object_new_object(); int distinct = 1; long notfound = 0;
 		hashes[NT] = lh_get_hash(json_object_get_object(o), "the fixed key"); json_object_put(o);
-		for (i = 0; i < NT; i++) if (hashes[i] != hashes[NT]) { distinct = 2; bad++; }
-		printf("RESULT scenario=seed threads=%d hashes_differing_from_late=%ld simultaneous_entrants=%d late=%lu distinct=%d\n", NT, bad, vf_seed_entrants_max, hashes[NT], distinct);
+		for (i = 0; i < NT; i++) if (hashes[i] != hashes[NT] || hashes_second[i] != hashes[NT]) { distinct = 2; bad++; }
+		/* a key inserted during the race must be found (and deletable) afterwards, from another thread */
+		for (i = 0; i < NT; i++) {
+			struct json_object *v = NULL;
+			if (!json_object_object_get_ex(seedobj[i], "the fixed key", &v) || json_object_get_int(v) != i) notfound++;
+			json_object_object_del(seedobj[i], "the fixed key");
+			if (json_object_object_length(seedobj[i]) != 0) notfound++;
+			json_object_put(seedobj[i]);
+		}
+		printf("RESULT scenario=seed threads=%d hashes_differing_from_late=%ld keys_lost=%ld simultaneous_entrants=%d late=%lu distinct=%d\n", NT, bad, notfound, vf_seed_entrants_max, hashes[NT], distinct);
 	}
 	(void)maxrefs_seen;
 	return 0;
